@@ -220,6 +220,45 @@ pub fn run(ctx: &mut Ctx) {
             if r.as_ref().map(|x| x.is_err()).unwrap_or(true) && ctx.rng.chance(50) { break; }
         }
     }
+    // text generated at build time (`#( … ~)`: the strings a meta block leaves are joined and read as source text) is a
+    // source like any other: what fails while it is built, and later in the words it defined, is located in it
+    for _ in 0..10 {
+        let k = ctx.rng.range(2, 9);
+        let mut xs = Xstate::boot().unwrap();
+        xs.intercept_stdout(true);
+        // (a) the generated definition uses an unknown word
+        let r = crate::guarded(|| xs.eval(&format!("1 #( \": gw{} nosuch{} ;\" ~) 2", k, k)));
+        let loc = xs.last_err_location().map(|l| (l.token.to_string(), l.token.parent().to_string(), l.line, l.col));
+        let want = (format!("nosuch{}", k), format!(": gw{} nosuch{} ;", k, k), 0usize, 5 + k.to_string().len());
+        ctx.check(matches!(r, Some(Err(Xerr::UnknownWord(_)))) && loc.as_ref() == Some(&want), || format!("C17 a definition generated with ~) uses the unknown word nosuch{}", k),
+            || format!("{:?}", want), || format!("{:?} at {:?}", r.map(|x| x.is_ok()), loc));
+        // (b) a generated word fails later, when a later source calls it
+        let mut ys = Xstate::boot().unwrap();
+        ys.intercept_stdout(true);
+        let _ = crate::guarded(|| ys.eval(&format!("#( [ \": third{} \" {} \" nth ;\" ] concat ~)", k, k)));
+        let r = crate::guarded(|| ys.eval(&format!("[ 1 ] third{}", k)));
+        let loc = ys.last_err_location().map(|l| (l.token.to_string(), l.token.parent().to_string()));
+        let want = ("nth".to_string(), format!(": third{} {} nth ;", k, k));
+        ctx.check(matches!(r, Some(Err(_))) && loc.as_ref() == Some(&want), || format!("C17 `[ 1 ] third{}` where third{} was generated with ~)", k, k),
+            || format!("an error at {:?}", want), || format!("{:?} at {:?}", r.map(|x| x.is_ok()), loc));
+        ctx.tag("kind:generated-text");
+    }
+    // a text that was included stays a source of its words when later meta blocks (or `enum`, which opens one) close:
+    // a failure inside an included word is still located in the file
+    for _ in 0..6 {
+        let dir = crate::lib_files(&ctx.scratch);
+        let f = format!("{}/ratio.xeh", dir);
+        std::fs::write(&f, "\\ a library\n: ratio   / ;\n").unwrap();
+        let closer = *ctx.rng.pick(&["#( 1 2 + #) drop", "enum E : A : B endenum", "#( #( 1 #) 2 + #) drop", "#( 3 const three #)"]);
+        let mut xs = Xstate::boot().unwrap();
+        xs.intercept_stdout(true);
+        let src = format!("include \"{}\" {} 4 0 ratio", f, closer);
+        let r = crate::guarded(|| xs.eval(&src));
+        let loc = xs.last_err_location().map(|l| (l.filename.to_string(), l.line, l.token.to_string()));
+        let want = (f.clone(), 1usize, "/".to_string());
+        ctx.check(matches!(r, Some(Err(Xerr::DivisionByZero))) && loc.as_ref() == Some(&want), || format!("C17 `{}`", src), || format!("division by zero at {:?}", want), || format!("{:?} at {:?}", r.map(|x| x.is_ok()), loc));
+        ctx.tag("kind:included-then-meta-block");
+    }
     // a file that cannot be read: no token of any source is to blame, least of all the one an earlier failure pointed at
     // (repair 7c4ad93)
     for _ in 0..8 {
